@@ -14,6 +14,7 @@ from hexital import Hexital  # noqa: E402
 TF_LADDER = ["T1", "T5", "T15", "H1"]
 TF_MIX = ["T2", "T3", "T5", "T10", "T15", "T45", "H1", "H2"]
 TF_MIX5 = ["T10", "T15", "T45", "H1", "H2"]
+REPOP_KINDS = ("SMA", "EMA", "WMA", "RMA", "ROC", "TR", "OBV", "HLA", "DONCHIAN", "AROON", "HL", "VWMA")
 
 
 def member_view(ind) -> List[Dict]:
@@ -122,6 +123,19 @@ def falsify(ctx, case: Dict) -> bool:
                         if d2 is None:
                             bad = {"relation": "member-differs-from-standalone", "what": d[1], "own_tf": True,
                                    "seeded_from_filled_candles": True}
+                elif case.get("repopulate") and s["kind"] in REPOP_KINDS and len(inside.candles) > 2:
+                    # the same further operations on both: readings wiped, the newest computed first, the rest
+                    # filled in by calculate()
+                    stage = "repopulate"
+                    h.purge(o.name)
+                    h.calculate_index(o.name, -1)
+                    h.calculate()
+                    alone.purge()
+                    alone.calculate_index(-1)
+                    alone.calculate()
+                    d = E.same_snapshot(project(member_view(h.indicator(o.name)), keys_i, keys_s), project(member_view(alone), keys_i, keys_s))
+                    if d is not None:
+                        bad = {"relation": "member-differs-from-standalone", "what": d[1], "kind": s["kind"], "after": "repopulate"}
             if bad is None and not hcfg.get("ha") and not hcfg.get("tf") and hcfg.get("lifespan") is None:
                 want = [(r["ts"], r["open"], r["high"], r["low"], r["close"], r["volume"]) for r in rows]
                 if raw0 != want:
@@ -200,7 +214,7 @@ def gen_case(rng, ctx) -> Dict:
     # timeframes are accepted in either case
     tfs = [t.lower() if t and rng.random() < 0.25 else t for t in tfs]
     return {"specs": specs, "tfs": tfs, "rows": rows, "hcfg": hcfg, "init": init_n, "chunks": chunks,
-            "form": rng.choice(["object", "object", "settings", "dict"])}
+            "form": rng.choice(["object", "object", "settings", "dict"]), "repopulate": rng.random() < 0.5}
 
 
 def run(ctx: core.Ctx) -> int:
